@@ -42,6 +42,8 @@ type Contract struct {
 	Lets        []LetClause
 	Reveal      []Clause // reveal f(args): unfold an opaque spec function for these arguments
 	Instantiate []Clause // ghost calls of pure contracted functions: "instantiate From(c[0])"
+	Assuming    []Clause // guards of every ensures clause (type invariants of the inputs): not preconditions,
+	// so totality and safety are proved without them and call sites need not establish them
 	Defines     []Clause // definitional naming of a deterministic result by a spec function: assumed at call sites, never checked
 	PanicsWhen  []Clause
 	Loops       map[int]*LoopSpec
@@ -52,6 +54,7 @@ type Contract struct {
 	Inline      bool
 	MayPanic    bool // documented to panic (Must* helpers): panic-reachable not generated
 	Lemma       bool
+	Cumulative  bool // later ensures may assume earlier ones (each is still proved on its own)
 	Decreases   *Clause // termination measure of a recursive function
 	Global      bool
 	Binders     []Binder // for lemmas
@@ -185,7 +188,7 @@ func ParseContractFile(path, pkgPath string) ([]*Contract, error) {
 			}
 			out = append(out, c)
 			cur = c
-		case "requires", "ensures", "defines", "panics-when", "invariant", "decreases":
+		case "requires", "ensures", "assuming", "defines", "panics-when", "invariant", "decreases":
 			if cur == nil {
 				return nil, fmt.Errorf("%s:%d: clause outside contract", path, ln)
 			}
@@ -200,6 +203,8 @@ func ParseContractFile(path, pkgPath string) ([]*Contract, error) {
 				cur.Ensures = append(cur.Ensures, cl)
 			case "defines":
 				cur.Defines = append(cur.Defines, cl)
+			case "assuming":
+				cur.Assuming = append(cur.Assuming, cl)
 			case "panics-when":
 				cur.PanicsWhen = append(cur.PanicsWhen, cl)
 			case "invariant":
@@ -265,6 +270,8 @@ func ParseContractFile(path, pkgPath string) ([]*Contract, error) {
 					cur.Assigns = append(cur.Assigns, strings.TrimSpace(a))
 				}
 			}
+		case "cumulative":
+			cur.Cumulative = true
 		case "trusted":
 			cur.Trusted = true
 		case "noinline":
